@@ -273,3 +273,33 @@ def random_subset_with_ends(rng, n, k=None):
     if k is None:
         k = rng.randrange(0, len(mid) + 1)
     return [0, *sorted(rng.sample(mid, min(k, len(mid)))), n - 1]
+
+
+# ---- integer-dtype delivery -------------------------------------------------------------------------------------------------------------
+def int_ok(pts):
+    """may this curve be handed to the package as an int64 array?  Integral values, abscissae below 2^12 and heights below 2^46 (cache sizes /
+    request counts against byte counts): every product of two coordinate differences that the package forms in the input's own dtype then stays
+    below 2^62.  Beyond that domain (both axes >= 2^31) the pinned package itself wraps around in a dozen places (hull orientation test,
+    curvature, perpendicular distance, ...): a documented limit of its integer support (DESIGN section 7), not the subject of any property."""
+    a = np.asarray(pts, float)
+    if a.ndim != 2 or a.shape[1] != 2 or not a.size or not np.all(np.isfinite(a)) or not np.all(a == np.floor(a)):
+        return False
+    return bool(np.max(np.abs(a[:, 0])) < 2 ** 12 and np.max(np.abs(a[:, 1])) < 2 ** 46)
+
+
+def as_int(rng, pts, p=0.35):
+    """(array for the REAL call, flag): the same curve as an int64 array with probability p when int_ok; oracles / references keep the float64 copy"""
+    if int_ok(pts) and rng.random() < p:
+        return np.asarray(pts).astype(np.int64), True
+    return pts, False
+
+
+def bytecount_of(pts):
+    """the integral part of a curve as raw byte counts: heights floored and scaled by 2^33 (squares of height differences exceed 2^63: anything
+    squared or multiplied in the input's own integer dtype wraps around), abscissae kept when they are small integers, else replaced by 0..n-1"""
+    a = np.asarray(pts, float)
+    x = a[:, 0] if (np.all(a[:, 0] == np.floor(a[:, 0])) and np.max(np.abs(a[:, 0])) < 2 ** 12 and np.all(np.diff(a[:, 0]) > 0)) else np.arange(len(a), dtype=float)
+    y = a[:, 1] - np.min(a[:, 1])
+    top = float(np.max(y)) or 1.0
+    y = np.floor(y / top * 4095.0) * 2.0 ** 33
+    return np.column_stack([x, y])
